@@ -100,6 +100,11 @@ def r4(cx, rec):
     C15.r2(cx, rec)
 
 
+def key_params(f):
+    """names of the byte-string parameters of a finder function (the wanted key)"""
+    return {n for n, l, t in C.params_of(f, r'^&\[u8\]$|^&str$|^&std::vec::Vec<u8>$')}
+
+
 @TABLE.rule('5', 'call graph', 'the key matcher that returns the value is not part of a recursive search over value positions', floor=1)
 def r5(cx, rec):
     F = cx.F
@@ -109,10 +114,10 @@ def r5(cx, rec):
     for f in F.user_fns():
         if not f.path.startswith('bcodec::'):
             continue
-        params = [v['n'] for v in f.raw['vars'] if 'arg' in v]
-        if 'key' not in params:
+        keys = key_params(f)
+        if not keys:
             continue
-        cmps = [bb for bb in mirq.real_calls(f) if f.expr_call(bb)[4].get('name') in ('eq', 'ne') and any(access_path(a) == 'key' for a in f.expr_call(bb)[2])]
+        cmps = [bb for bb in mirq.real_calls(f) if f.expr_call(bb)[4].get('name') in ('eq', 'ne') and any(access_path(a) in keys for a in f.expr_call(bb)[2])]
         if cmps:
             matchers.append((f, cmps))
     rec.need(bool(matchers), 'no-matcher', H, None, 'no key matcher found')
@@ -134,8 +139,8 @@ def r5b(cx, rec):
     for f in F.user_fns():
         if not f.path.startswith('bcodec::') or f.kind == 'Closure':
             continue
-        params = [v['n'] for v in f.raw['vars'] if 'arg' in v]
-        if 'key' not in params:
+        keys = key_params(f)
+        if not keys:
             continue
         selfrec = [bb for bb in mirq.real_calls(f) if (f.blocks[bb]['t'].get('callee') or '') == f.path]
         if not selfrec:
@@ -146,14 +151,14 @@ def r5b(cx, rec):
             if not s['lhs'].get('p'):
                 nm = f._localnames.get(s['lhs']['l'])
                 e = f.expr_rvalue(s['rv'])
-                if nm and any(x[0] == 'call' and x[4].get('name') in ('eq', 'ne') and any(access_path(a) == 'key' for a in x[2]) for x in walk(e)):
+                if nm and any(x[0] == 'call' and x[4].get('name') in ('eq', 'ne') and any(access_path(a) in keys for a in x[2]) for x in walk(e)):
                     flags.add(nm)
             t = f.blocks[bi]['t']
         for bb in mirq.real_calls(f):
             t = f.blocks[bb]['t']
             if t.get('name') in ('eq', 'ne') and not t['dest'].get('p'):
                 nm = f._localnames.get(t['dest']['l'])
-                if nm and any(access_path(a) == 'key' for a in f.expr_call(bb)[2]):
+                if nm and any(access_path(a) in keys for a in f.expr_call(bb)[2]):
                     flags.add(nm)
         for rb in selfrec:
             ok = False
@@ -164,9 +169,16 @@ def r5b(cx, rec):
                     continue
                 tt, ff = be
                 x = ce
+                neg = False
+                while x[0] == 'unop' and x[1] == 'Not':
+                    neg = not neg
+                    x = x[2]
                 is_flag = x[0] in ('var', 'mvar') and x[1] in flags
-                is_cmp = x[0] == 'call' and x[4].get('name') == 'eq' and any(access_path(a) == 'key' for a in x[2])
-                if (is_flag or is_cmp) and (rb in f.only_via_edge((sb, ff))):
+                is_cmp = x[0] == 'call' and x[4].get('name') in ('eq', 'ne') and any(access_path(a) in keys for a in x[2])
+                if is_cmp and x[4].get('name') == 'ne':
+                    neg = not neg
+                not_matched = tt if neg else ff
+                if (is_flag or is_cmp) and (rb in f.only_via_edge((sb, not_matched)) or rb == not_matched):
                     ok = True
             rec.site(f, rb, 'recursive descent only on the not-matched edge: %s (match flags: %s)' % (ok, sorted(flags)))
             rec.need(ok, 'descent-before-match/' + f.path, f, rb,
@@ -177,17 +189,21 @@ def r5b(cx, rec):
 @TABLE.rule('5c', 'K7', 'raw re-serialisers emit the wrapper bytes depending only on the extract flag, never on the content', floor=2)
 def r5c(cx, rec):
     F = cx.F
-    for fn in ('raw_list', 'raw_dict', 'raw_int', 'raw_byte_str'):
-        fs = [x for x in F.user_fns() if x.path.endswith('DeepFinder::' + fn)]
-        if not fs:
-            raise AnchorMissing(fn)
-        f = fs[0]
+    # the raw re-serialisers: span copiers over the input iterator with exactly one flag (emit or skip) and no key
+    raws = [x for x in F.user_fns() if x.path.startswith('bcodec::') and x.kind != 'Closure' and
+            x.locals[0]['ty'].startswith('std::result::Result<std::vec::Vec<u8>') and len(C.params_of(x, r'^bool$')) == 1 and
+            not C.params_of(x, r'&\[u8\]') and C.params_of(x, r'Enumerate<')]
+    if len(raws) < 4:
+        raise AnchorMissing('raw re-serialisers: found %s' % [x.path for x in raws])
+    for f in raws:
+        fn = f.name
+        flag = C.params_of(f, r'^bool$')[0][0]
         conds = []
         for sb in f.switches():
             ce, ts, o = f.cond(sb)
             if f.bool_edges(sb):
                 conds.append(show(ce))
         rec.site(f, None, '%s branches on %s' % (fn, conds))
-        bad = [c for c in conds if c != 'extract']
+        bad = [c for c in conds if c != flag]
         rec.need(not bad, 'raw-content-dependent/' + fn, f, None,
                  '%s decides what to emit by %s: the re-serialised bytes then differ from the input span for some contents (e.g. an empty list)' % (fn, bad))
